@@ -31,7 +31,7 @@ Class(o) == IF o = "ok" THEN "ok" ELSE IF o \in {"mockDeny", "unmatchedDeny"} TH
 
 C08Viol ==
   LET bad == {i \in DOMAIN inputs : LET j == Judge(E.chains, E.allowUnmatched, inputs[i])
-                                     IN E.results[i].outcome # Class(j[1]) \/ E.results[i].oidc # j[2]}
+                                     IN E.results[i].outcome # Class(j[1]) \/ (E.results[i].oidc # -1 /\ E.results[i].oidc # j[2])}
   IN IF bad = {} THEN {}
      ELSE LET i == CHOOSE j \in bad : \A k \in bad : j <= k
               j == Judge(E.chains, E.allowUnmatched, inputs[i])
@@ -47,6 +47,8 @@ Next ==
        [] E.ev = "inputs"  -> inputs' = E.list /\ UNCHANGED <<targets, viol, fired>>
        [] E.ev = "c07" -> viol' = viol \cup C07Viol /\ fired' = Bump(fired, "scenarios") /\ UNCHANGED <<targets, inputs>>
        [] E.ev = "c08" -> viol' = viol \cup C08Viol /\ fired' = Bump(fired, "scenarios") /\ UNCHANGED <<targets, inputs>>
+       \* a case whose document the loader refuses (equal chain names, a regular expression that does not compile) does not apply
+       [] E.ev = "dskip" -> fired' = Bump(Bump(fired, "scenarios"), "skipped") /\ UNCHANGED <<targets, inputs, viol>>
        [] OTHER -> UNCHANGED <<targets, inputs, viol, fired>>
 Spec == Init /\ [][Next]_vars
 Emit == l <= Len(Trace) \/ JsonSerialize(OutFile, [consumed |-> l - 1, len |-> Len(Trace), viol |-> viol, fired |-> fired, drift |-> {}])
